@@ -81,7 +81,7 @@ def run_case(case: dict) -> tuple[list[str], list[str]]:
             # op[1]: edit script applied to the current method lines: list of ("append", text) |
             # ("change", selector, text) | ("delete", selector) | ("insert", selector, text)
             cur = [(ln.id, ln.content) for ln in h.mm._method.lines]
-            new = apply_edit_script(cur, op[1])
+            new = apply_edit_script(cur, op[1], keep_indent=bool(case.get("keep_indent")))
             defs, ans = h.edit(new)
             lines += defs
             outs += ["ok"] * (len(defs) - 1) + [ans]
